@@ -72,9 +72,24 @@ func c12Body(r *core.Rec, seed int64, d, p, length, g int, odd bool) bool {
 	}
 	coder := c12Code(d, p, g)
 	var par [][]byte
+	// the data list is handed in as a window into a longer list (the "next stripe" and its parity slots behind it): the
+	// callee may not touch what lies behind the window, whatever the goroutine count
+	arena := make([][]byte, 2*d+p+2)
+	copy(arena, data)
+	for i := d; i < len(arena); i++ {
+		arena[i] = []byte{byte(i), 0x5a}
+	}
+	behind := append([][]byte{}, arena[d:]...)
+	data = arena[:d]
 	if pi := core.Catch(func() { par = coder.GenerateParity(data) }); pi != nil {
 		r.Violatef("generate-panic:"+pi.Frame, "d=%d p=%d len=%d g=%d: %s", d, p, length, g, pi.Value)
 		return false
+	}
+	for i := range behind {
+		if len(arena[d+i]) != len(behind[i]) || &arena[d+i][0] != &behind[i][0] {
+			r.Violatef("list-entries-behind-the-data-list-altered", "d=%d p=%d len=%d g=%d: GenerateParity overwrote entry %d behind the data list it was given (len %d, cap %d)", d, p, length, g, i, d, cap(data))
+			return false
+		}
 	}
 	for i := range ref {
 		if !bytes.Equal(ref[i], par[i]) {
@@ -298,7 +313,7 @@ func init() {
 		ID:      "C12",
 		AltArch: true, // the alternate binary here is the -race build
 		Level:   "model_checking",
-		Rule: "(i) partition arithmetic, full product through the real GenerateParity/ReconstructData: every even shard length 2..600 (+1024..65550) x goroutine count 1..40 (and > number of 16-byte units) x codes (2,2),(3,2), and every even length 2..200 x g 1..16 x codes (6,5),(9,8) (several missing rows per goroutine), compared with g=1; every row count 1..40 x 64 KiB shards and 60..130 x 4 KiB shards x g 1..3; the (3,2) code also with every input shard displaced to an odd address inside a larger buffer; " +
+		Rule: "(i) partition arithmetic, full product through the real GenerateParity/ReconstructData: every even shard length 2..600 (+1024..65550) x goroutine count 1..40 (and > number of 16-byte units) x codes (2,2),(3,2), and every even length 2..200 x g 1..16 x codes (6,5),(9,8) (several missing rows per goroutine), compared with g=1 (the data list is a window into a longer list whose entries behind it must stay untouched); every row count 1..40 x 64 KiB shards and 60..130 x 4 KiB shards x g 1..3; the (3,2) code also with every input shard displaced to an odd address inside a larger buffer; " +
 			"(ii) controlled-scheduler exploration of the real worker goroutines (sources instrumented from the current tree and injected with go build -overlay): for encode and reconstruct configurations (workers x kernel calls), EVERY interleaving at kernel-call/synchronisation granularity (unbounded), and every interleaving with <=2 (thorough 3) preemptions at statement granularity; per execution: output == single-goroutine bytes, recorded kernel access sets of different workers conflict-free, no deadlock; " +
 			"(iii) Create / Repair through par2 for g in 1..12, and for the default count (option 0 / -1) under GOMAXPROCS {1,2,3,4,16}, byte-identical to g=1; (iv) the same bodies free-running under the race detector (separate -race build, GOMAXPROCS 1,2,4,16). non-trivial = executions with >=2 runnable threads at some choice point / g>1 cases",
 		Assumptions: []string{"the controlled scheduler is sequentially consistent; weak-memory effects are covered only by the race-detector pass (no race => SC)", "scheduling points: spawn, exit, WaitGroup/Mutex operations, kernel calls, and (statement granularity) every statement of the instrumented files"},
